@@ -828,6 +828,10 @@ impl<T: Transport, Env: UtpEnvironment> VirtualSocket<T, Env> {
             }
             PopExpiredProbe::NotExpired => {
                 trace!("MTU probe hasnt expired yet");
+                // Nothing new gets segmented while a probe is in flight, but keep the count accurate:
+                // it gates sending FIN, and the user may have written more since the last poll.
+                self.this_poll.unsegmented_data =
+                    tx_len.saturating_sub(self.user_tx_segments.total_len_bytes());
                 return Ok(());
             }
             PopExpiredProbe::Empty => {}
